@@ -200,11 +200,12 @@ def budget(tier):
     return {'cases': 500000, 'wall_cap_s': 1500}
 
 
-def _tables(rng, op, maxrows):
+def _tables(rng, op, maxrows, minrows=0):
     nf = rng.randint(3, 5)
     ragged = False if (op.rect or not op.squares) else None
     prof = rng.choice(['default', 'default', 'nonone', 'mixedkeys', 'int'])
-    return [gen_table(rng, maxrows, nfields=nf, ragged=ragged, profile=prof)
+    return [gen_table(rng, maxrows, minrows=minrows, nfields=nf,
+                      ragged=ragged, profile=prof)
             for _ in range(op.nsrc)]
 
 
@@ -223,15 +224,22 @@ def _gen_case(rng, tier, g):
         else rng.choice(OP_NAMES)
     op = OPS[name]
     maxrows = 7 if tier == 'quick' else 10
-    tables = _tables(rng, op, maxrows)
+    big = rng.random() < 0.04
+    if big:
+        # enough rows for dozens of chunk files (whatever the merge does per
+        # so many chunks happens)
+        maxrows = rng.choice([18, 24, 40])
+    tables = _tables(rng, op, maxrows, minrows=maxrows - 6 if big else 0)
     n = max(len(t) - 1 for t in tables)
     if rng.random() < 0.55:
         # ---- knob sweep ------------------------------------------------
         variants = []
         if name not in NO_KWARGS:
             sizes = list(range(1, n + 2))
-            if tier == 'quick':
+            if tier == 'quick' or big:
                 sizes = rng.sample(sizes, min(len(sizes), 3))
+            if big:
+                sizes = [1, 2] + sizes
             for b in sizes:
                 variants.append({'buffersize': b})
             variants.append({'cache': False})
